@@ -93,8 +93,18 @@ def generic_coverage(case, results):
                     if ev.get("ret"):
                         slices_ended_by_clock += 1
         sim_s += sum(last_t.values())
+    sigs = set()
+    for lt in case["lifetimes"]:
+        seq = []
+        for ep in lt["episodes"]:
+            for o in ep["ops"]:
+                if o[0] == "drive":
+                    seq.append(("drive", tuple(q[0] for q in o[1])))
+                else:
+                    seq.append(o[0])
+        sigs.add(int.from_bytes(hashlib.sha256(repr(seq).encode()).digest()[:6], "big"))
     return {"simulated_engine_seconds": sim_s, "virtual_clock_ms": vclock_ms, "run_slices": run_slices,
-            "run_slices_ended_by_clock": slices_ended_by_clock}
+            "run_slices_ended_by_clock": slices_ended_by_clock, "op_sequences": sigs}
 
 
 def evaluate(prof, case, libs, timeout):
